@@ -193,6 +193,8 @@ type Interp struct {
 	// field-based mod set (havoc) and reported to the plug-in through OnSkip.
 	Relevant     map[*ssa.Function]bool
 	OnSkip       func(in *Interp, fs *FState, site ssa.Instruction, callee *ssa.Function)
+	// OnLearnNil lets a plug-in move knowledge about an error symbol into its property state
+	OnLearnNil func(st *State, sym int, isNil bool)
 	cellsByField map[*types.Var][]*Cell
 	skipped      map[*ssa.Function]bool
 }
@@ -393,7 +395,7 @@ func (in *Interp) load(fs *FState, instr ssa.Instruction, c *Cell) Value {
 
 func (in *Interp) loadCell(st *State, c *Cell) Value {
 	if s, ok := c.typ.Underlying().(*types.Struct); ok {
-		r := StructV{make([]Value, s.NumFields())}
+		r := StructV{fields: make([]Value, s.NumFields()), src: c.id}
 		for i := 0; i < s.NumFields(); i++ {
 			r.fields[i] = in.loadCell(st, in.kid(c, s.Field(i).Name(), s.Field(i).Type()))
 		}
@@ -639,6 +641,9 @@ func (in *Interp) learnBool(s *State, sym int, val bool) {
 func (in *Interp) learnNil(s *State, sym int, isNil bool) {
 	if sym == 0 {
 		return
+	}
+	if in.OnLearnNil != nil {
+		in.OnLearnNil(s, sym, isNil)
 	}
 	if isNil {
 		s.nilF[sym] = 1
@@ -1508,7 +1513,10 @@ func (in *Interp) joinStates(old, n *State, tag string) bool {
 func (in *Interp) joinNamed(old, n *State, ov, nv Value, tag string) Value {
 	if so, ok := ov.(StructV); ok {
 		if sn, ok := nv.(StructV); ok && len(so.fields) == len(sn.fields) {
-			r := StructV{make([]Value, len(so.fields))}
+			r := StructV{fields: make([]Value, len(so.fields))}
+			if so.src == sn.src {
+				r.src = so.src
+			}
 			for i := range so.fields {
 				switch {
 				case so.fields[i] == nil || sn.fields[i] == nil:
